@@ -170,6 +170,11 @@ def helper_shape(run, f, sp):
                     "Builder::new_current_thread().enable_time().build()", loc=site.loc)
         bo = [k for k in live_calls(cb) if fn_of(k).get("name") == "block_on"]
         okb = len(bo) == 1
+        # it must be Runtime::block_on: on a current-thread runtime only that call drives the timer (Handle::block_on parks
+        # the thread without turning the time driver - tokio's documented caveat - so the timeout would never fire)
+        run.require(okb and (fn_of(bo[0]).get("def") or "").startswith("tokio::runtime::Runtime::") , "O17.3", "helper-block_on-drives-timer:%s" % fnname,
+                    "the helper of %s enters the runtime through %s, which does not drive the timer of a current-thread runtime: the deadline would never fire" % (fnname, (fn_of(bo[0]).get("def") if bo else None)),
+                    "Runtime::block_on (drives the time driver)", loc=site.loc)
         if okb:
             tr = tracer_of(cb)
             fut = strip_wrappers(tr.norm(tr.call_args(bo[0].idx)[1]))
